@@ -67,7 +67,7 @@ SLAB_B = A(quick='policy configs: tiny (page 256, slab=sb 4 KiB, 8 classes; alig
 for pid, extra in (('C01', ''), ('C02', ''), ('C03', '')):
     PROPS[pid] = A(level='model_checking', harnesses=SLAB_H, budget=A(quick=170, thorough=1700), bounds=SLAB_B, assumptions=TRUST + ['ASan manual poisoning is conservative at 8-byte granularity'])
 PROPS['C04'] = A(level='fault_enumeration', harnesses=SLAB_H, budget=A(quick=170, thorough=1700),
-    bounds=A(quick='the C01 explorations with one more environment answer: at every op that can call Policy::map, the call is failed (<=1 failure per history); every reachable state within the bounds is a failure point', thorough='<=2 failures per history'),
+    bounds=A(quick='the C01 explorations with one more environment answer: at every op that can call Policy::map, the call is failed (<=1 failure per history); every reachable state within the bounds is a failure point; plus the same with the policy freeing a live block of the pool from inside the failing map() call (what a concurrent free during the unlocked map() amounts to)', thorough='<=2 failures per history'),
     rule='cases = (history, failed map call) pairs enumerated by BFS over alloc/realloc ops with a failing-map variant; distinct = distinct canonical states reached; non-trivial = the failing variant actually reached map()',
     assumptions=TRUST)
 
@@ -109,8 +109,8 @@ PROPS['C12'] = A(level='model_checking', engine='sched', harnesses=SCHED('harnes
     technique='stateless model checking: exhaustive preemption-bounded enumeration of thread schedules of the real implementation under a serialising scheduler (CHESS style), vector-clock happens-before oracle, ThreadSanitizer over the same schedules; explicit-state BFS for the guards',
     assumptions=TRUST + ['interleaving (sequentially consistent) semantics; memory-order defects are caught as missing happens-before edges (vector clocks, TSan), not by enumerating weak-memory executions'])
 
-PROPS['C05'] = A(level='model_checking', engine='sched', harnesses=SCHED('harness/c05_slab_mt.cpp'), budget=A(quick=170, thorough=1700),
-    bounds=A(quick='slab_pool<tiny policy, scheduler mutex>: 8 thread scripts (2-4 threads, 1-4 pool calls each, all on shared size classes: both threads find a class empty; race for the last free object while a third frees into the slab; cross-thread free through a mailbox; realloc across classes; large frames vs. slab creation; unaligned map; full slab refill), every lock/unlock a scheduling point, all schedules with <=3 preemptions; each script explored with ASan+oracles and again under ThreadSanitizer',
+PROPS['C05'] = A(level='model_checking', engine='sched', harnesses=SCHED('harness/c05_slab_mt.cpp') + SLAB_H[:2], budget=A(quick=170, thorough=1700),
+    bounds=A(quick='slab_pool<tiny policy, scheduler mutex>: 8 thread scripts (2-4 threads, 1-4 pool calls each, all on shared size classes: both threads find a class empty; race for the last free object while a third frees into the slab; cross-thread free through a mailbox; realloc across classes; large frames vs. slab creation; unaligned map; full slab refill), every lock/unlock a scheduling point, all schedules with <=3 preemptions; each script explored with ASan+oracles and again under ThreadSanitizer; 3 scripts with the pool built over frg::ticket_spinlock / frg::simple_spinlock (every atomic builtin of the lock a scheduling point, <=1 preemption); sequential part for the clause that the policy may itself use the pool: BFS over histories in which the policy frees a live block through the pool from inside map(), with map succeeding or failing (3 configurations, depth 5 / fixpoint)',
              thorough='<=4 preemptions; H1 with all interleavings; three allocators; two classes'),
     technique='stateless model checking: exhaustive preemption-bounded enumeration of thread schedules of the real slab_pool under a serialising scheduler, oracles on every schedule, ThreadSanitizer over the same schedules',
     assumptions=TRUST + ['plain memory accesses are not scheduling points; data-race freedom is checked separately by ThreadSanitizer on every explored schedule', 'interleaving semantics'])
